@@ -28,11 +28,13 @@ except ImportError:  # inside a worker subprocess the printers are not needed
 
 ID = "C01"
 COQ_PROPERTY_FILE = "Properties/C01.v"
-COQ_DEPS = ["Common/ListX.v", "Common/ObsHash.v", "Generated/Tables.v", "Model/Rng.v", "Proofs/RngProofs.v"]
+COQ_DEPS = ["Common/ListX.v", "Common/ObsHash.v", "Generated/Tables.v", "Model/Rng.v", "Model/Seed.v", "Proofs/RngProofs.v",
+            "Proofs/RngBridge.v"]
 COQ_IMPORTS = "From Mesa Require Import Model.Rng."
 COQ_CASE_TYPE = "case"
 COQ_RUN = "run_case"
-TABLE_CONSTRUCTS = ["mte_choice_sorted", "global_rng_sites"]
+TABLE_CONSTRUCTS = ["mte_choice_sorted", "global_rng_sites", "rng_sites", "model_init_code", "model_init_skeleton",
+                    "reset_randomizer_code", "reset_rng_code"]
 ENUM_ALWAYS = False
 REPO = os.environ.get("VERIF_REPO", "/repo")
 
